@@ -111,7 +111,7 @@ func ctxParamOf(e *pw.Engine) *pw.Val {
 
 // isShardData: a map event on a shard's data map.
 func isShardData(ev *pw.Event) bool {
-	return ev.Recv != nil && ev.Recv.Kind == pw.KField && ev.Recv.Field != nil && ev.Recv.Field.Name() == "data" &&
+	return ev.Recv != nil && (ev.Recv.Kind == pw.KField || ev.Recv.Kind == pw.KAlloc) && ev.Recv.Field != nil && ev.Recv.Field.Name() == "data" &&
 		(ev.Kind == pw.EvMapLookup || ev.Kind == pw.EvMapInsert || ev.Kind == pw.EvMapDelete || ev.Kind == pw.EvMapIter || ev.Kind == pw.EvMapLen)
 }
 
@@ -121,6 +121,9 @@ func bucketOf(ev *pw.Event) string { return strings.TrimSuffix(ev.Path, ".data")
 // bucketIndex returns the abstract index value used to select the shard of a data-map event (nil if unknown).
 func bucketIndex(ev *pw.Event) *pw.Val {
 	b := ev.Recv.Src
+	if ev.Recv.Kind == pw.KAlloc {
+		b = ev.Recv.Recv // a fresh map installed in the shard's field: the field's base
+	}
 	for i := 0; b != nil && i < 4; i++ {
 		if b.Kind == pw.KAddr && b.Src2 != nil {
 			return b.Src2
@@ -135,6 +138,22 @@ func syncMapOp(ev *pw.Event) string {
 		return strings.TrimPrefix(ev.Role, "Std:sync.Map.")
 	}
 	return ""
+}
+
+// isSyncStore: the event puts its value argument into the sync.Map on this path: Store, Swap, or a LoadOrStore that did not find
+// an entry (its second result is false on the path).
+func isSyncStore(p *pw.Path, ev *pw.Event) bool {
+	switch syncMapOp(ev) {
+	case "Store", "Swap":
+		return true
+	case "LoadOrStore":
+		if p != nil && len(ev.Results) == 2 {
+			if t, known := p.Truth(ev.Results[1]); known && !t {
+				return true
+			}
+		}
+	}
+	return false
 }
 
 func isConstNamed(v *pw.Val, name string) bool {
